@@ -25,12 +25,25 @@ type request struct {
 	Names [][2]string `json:"names,omitempty"`
 	CT    string      `json:"content_type,omitempty"`
 	Body  string      `json:"body,omitempty"`
+	// Framing: how the body reaches the handler ("" = plain in-process request
+	// with a known length; see framings in framing.go). A request with a
+	// Framing is always judged against the same request without one.
+	Framing string `json:"framing,omitempty"`
 }
 
 var fsSegs = []string{"a", "b.txt", "c d", "é", "x%41", "q?x", "h#1", "s;c", "a&b", "a+b", "a:b", "~t", "(p)", "[b]",
 	"ü ñ.html", "%zz", "data.json", "img.png", "UPPER", "a'b", "a\"b", "a<b>", "e=f", "@at", "x,y", "sub", "deep", "0"}
 
-var davSegs = []string{"user", "u 1", "é", "cal", "x%41", "a&b", "a+b", "work", "home", "c;d", "q?", "h#", "A", "z_9", "a<b", "x:y", "it's"}
+// Member names that look like implementation artefacts (temporary upload
+// files, editor and OS droppings, VCS directories, dot-dot look-alikes, hidden
+// and very long names). They are ordinary user resources: whatever answers
+// individually is a member of its collection.
+var artefactSegs = []string{".webdav-put-1-1", ".webdav-put-x", ".webdav-put-", ".webdav-put-4242-7", ".DS_Store", ".git", ".tmp", "~x", "x~",
+	".#x", "#x#", "lost+found", "...", ".. ", "..a", ".hidden", ".a", "._x", ".htaccess", "Thumbs.db", ".~lock.x#", "x.swp", ".nfs0001",
+	strings.Repeat("L", 200) + ".txt", "." + strings.Repeat("d", 150)}
+
+var davSegs = []string{"user", "u 1", "é", "cal", "x%41", "a&b", "a+b", "work", "home", "c;d", "q?", "h#", "A", "z_9", "a<b", "x:y", "it's",
+	".hidden", ".webdav-put-1-1", "~x", "...", ".tmp", "#x#"}
 
 var etags = []string{"", "abc", "W1", "1a2b3c", "tag-with-dash", "0"}
 var mimes = []string{"", "text/plain", "application/octet-stream", "text/html; charset=utf-8", "image/png"}
@@ -110,7 +123,11 @@ func genFileWorld(r *rand.Rand, server string) world {
 		var subs []sub
 		for i := 0; i < n && budget > 0; i++ {
 			budget--
-			seg := uniqueSeg(r, fsSegs, used)
+			pool := fsSegs
+			if r.Intn(4) == 0 {
+				pool = artefactSegs
+			}
+			seg := uniqueSeg(r, pool, used)
 			p := dir + "/" + seg
 			if dir == "/" {
 				p = "/" + seg
@@ -457,6 +474,8 @@ func noneForeignBody(r *rand.Rand, lx *xmltree.Lex) string {
 	return string(xmltree.Render(root, lx))
 }
 
+var nearEmptyBodies = []string{" ", "\r\n", "\n\t ", `<?xml version="1.0" encoding="utf-8"?>`, "<?xml version=\"1.0\"?>\n", "\xef\xbb\xbf", "\xef\xbb\xbf\n"}
+
 // genRequest draws one request against resource t of the environment.
 func genRequest(r *rand.Rand, e *env, t int) request {
 	res := e.res[t]
@@ -501,10 +520,17 @@ func genRequest(r *rand.Rand, e *env, t int) request {
 	case k < 37:
 		q.Form = "none-foreign-ns"
 		q.Body = noneForeignBody(r, lx)
-	default:
+	case k < 39:
 		q.Form = "malformed"
 		valid := xmltree.Render(davx.PropFindTree("prop", genNames(r)), lx)
 		q.Body = malformedBody(r, valid)
+	default:
+		// a body that holds no document: white space, an XML declaration, a BOM
+		q.Form = "near-empty"
+		q.Body = nearEmptyBodies[r.Intn(len(nearEmptyBodies))]
+		if r.Intn(2) == 0 {
+			q.CT = ""
+		}
 	}
 	return q
 }
